@@ -566,8 +566,12 @@ def gen_cache(rng, cell):
     elif f == "alr2":
         first = {"p": "add_low_rank", "a": a, "t": ob.rand_t(rng, b + [N, 2], -2, 2)}
     else:
-        nbat = int(torch.tensor(b).prod()) if b else 1
-        first = {"p": "cat_rows", "a": a, "B": ob.rand_t(rng, b + [1, N], -1, 1), "D": ob.T(b + [1, 1], [60] * nbat)}
+        # D = ceil(B A^-1 B^T) + 2: the concatenated matrix is positive definite by construction (Schur complement >= 2), whatever
+        # the conditioning of A (a fixed D put a few nearly singular A outside the domain of cat_rows)
+        Bt = ob.rand_t(rng, b + [1, N], -1, 1)
+        Bd = ob.tt(Bt)
+        schur = Bd @ torch.linalg.solve(ob.dense(e, torch.float64), Bd.mT)
+        first = {"p": "cat_rows", "a": a, "B": Bt, "D": ob.from_torch(torch.ceil(schur) + 2)}
         n2 = N + 1
     ek = g.general_root(rng, b, n2) if pk == "Root" else g.inst(rng, pk, b, n2, psd=True)
     x, y = (leaf(ek), first) if order else (first, leaf(ek))
@@ -789,6 +793,10 @@ def cause_of(k):
         # squeeze and the base _prod_batch go through __getitem__; the _getitem / _get_indices inherited from RootLinearOperator
         # read R R^T as well (and _prod_batch multiplies the slices through their root decompositions: C06-chol-upper)
         return "chol-upper-diagonal"
+    if op == "mul" and fail == "value" and ((a == "ConstantMul" and k.get("chol_upper_a")) or (b == "ConstantMul" and k.get("chol_upper_b"))):
+        # operator * operator goes through root decompositions; ConstantMulLinearOperator takes the root of its base, and the
+        # root of an upper Chol operator is R (R R^T): C06-chol-upper seen through MulLinearOperator
+        return "cmul-chol-upper-root"
     if op in ("add", "sub") and fail == "value" and b == "Chol" and k.get("chol_upper_b"):
         # LinearOperator.__add__: `isinstance(other, RootLinearOperator) -> self.add_low_rank(other.root)` adds R R^T
         return "add-chol-upper-as-root"
